@@ -7,6 +7,14 @@
 package browse
 
 //@ unit browse_redirect props=C02 filter=`browse\.Browse\)\.ServeHTTP$`
+//@ extern strings.HasPrefix
+//@   pure
+//@   ensures result == (len(s) >= len(prefix) && forall(i, 0, len(prefix), s[i] == prefix[i]))
+//@   ensures len(prefix) == 1 ==> result == (len(s) >= 1 && s[0] == prefix[0])
+//@   ensures len(prefix) == 2 ==> result == (len(s) >= 2 && s[0] == prefix[0] && s[1] == prefix[1])
+//@ extern strings.TrimPrefix
+//@   ensures HasPrefix(s, prefix) ==> result == s[len(prefix):]
+//@   ensures !HasPrefix(s, prefix) ==> result == s
 //@ extern invoke:(github.com/tmpim/casket/caskethttp/httpserver.Handler).ServeHTTP
 //@ extern (github.com/tmpim/casket/caskethttp/httpserver.Path).Matches
 //@   pure
@@ -22,6 +30,8 @@ package browse
 //@   at call net/http.Redirect assert [redirect_starts_with_slash] len(u.Path) >= 1 && u.Path[0] == '/'
 //@   at call net/http.Redirect assert [redirect_same_origin] len(u.Path) >= 2 ==> u.Path[1] != '/'
 //@   loop 1 invariant 0 <= #i && #i <= len(b.Configs) && bc == nil
+//@   loop 2 invariant len(u.Path) >= 1 && u.Path[0] == '/' && u.Path[len(u.Path)-1] != '/'
+//@   loop 2 decreases len(u.Path)
 
 //@ unit directory_listing props=C02 filter=`browse\.directoryListing$`
 //@ extern invoke:(io/fs.FileInfo).Name
